@@ -34,6 +34,8 @@
 # ANY WAY OUT OF THE USE OF THIS SOFTWARE, EVEN IF ADVISED OF THE
 # POSSIBILITY OF SUCH DAMAGE.
 
+import numpy as np
+
 from phonopy.gruneisen.band_structure import GruneisenBandStructure
 from phonopy.gruneisen.mesh import GruneisenMesh
 
@@ -79,8 +81,15 @@ class PhonopyGruneisen:
                 print("Warning: Dynamical matrix has not yet built.")
                 return False
 
-        symmetry = phonon.primitive_symmetry
-        rotations = symmetry.pointgroup_operations
+        # Mode Grueneisen parameters are invariant only under the operations
+        # shared by the three cells (they differ for non-hydrostatic strains).
+        rotations = self._phonon.primitive_symmetry.pointgroup_operations
+        for phonon in (self._phonon_plus, self._phonon_minus):
+            ops = phonon.primitive_symmetry.pointgroup_operations
+            rotations = np.array(
+                [r for r in rotations if (ops == r).all(axis=(1, 2)).any()],
+                dtype=rotations.dtype,
+            )
         self._mesh = GruneisenMesh(
             self._phonon.dynamical_matrix,
             self._phonon_plus.dynamical_matrix,
